@@ -148,8 +148,8 @@ def should_strip_fragment(fragment):
 
 
 def normalize_hostname(hostname, normalize_amp=True):
-    hostname = hostname.strip().lower()
     hostname = CONTROL_CHARS_RE.sub("", hostname)
+    hostname = hostname.strip().lower()
 
     pattern = IRRELEVANT_SUBDOMAIN_AMP_RE if normalize_amp else IRRELEVANT_SUBDOMAIN_RE
 
@@ -171,7 +171,7 @@ def get_normalized_hostname(url, normalize_amp=True, infer_redirection=True):
         splitted = url
     else:
         try:
-            splitted = urlsplit(ensure_protocol(url.strip()))
+            splitted = urlsplit(ensure_protocol(CONTROL_CHARS_RE.sub("", url).strip()))
         except ValueError:
             return None
 
